@@ -546,7 +546,7 @@ class AbsEval(ConstEval):
                 p = ConstEval.eval(self, v.node.value.args[0], {}, v.mod or mod)
             except NotConstant:
                 return None
-            return p if isinstance(p, str) else None
+            return p if isinstance(p, (str, bytes)) else None
         return None
 
     def bound_regex_of(self, v, mod):
@@ -564,8 +564,10 @@ class AbsEval(ConstEval):
     def regex_call(self, pattern, method, args):
         """Python's re applied to a constant pattern of the program and a concrete string: the match as an abstract object"""
         import re
-        if not args or not isinstance(args[0], str) or len(args) > 3 or not all(isinstance(a, int) and not isinstance(a, bool) for a in args[1:]):
-            if args and (args[0] is None or isinstance(args[0], (int, float, AObj))):
+        if args and isinstance(pattern, bytes) and isinstance(args[0], bytearray):
+            args = [bytes(args[0])] + list(args[1:])
+        if not args or not isinstance(args[0], type(pattern)) or len(args) > 3 or not all(isinstance(a, int) and not isinstance(a, bool) for a in args[1:]):
+            if args and (args[0] is None or isinstance(args[0], (int, float, AObj)) or (isinstance(args[0], (str, bytes)) and not isinstance(args[0], type(pattern)))):
                 raise AbsRaise("TypeError", "expected string")
             if args and isinstance(args[0], Res):
                 raise SymbolicBranch(Res("regex-" + method, pattern, args[0]), None)
